@@ -569,6 +569,7 @@ def gen_session(session_seed, pid, tier, profile=None):
         "pid": pid,
         "tier": tier,
         "seed": session_seed,
+        "enc_sticky": True,
         "programs": programs,
         "steps": steps,
         "replicas": replicas,
